@@ -64,6 +64,17 @@ Inductive sync_script :=
 
 Record conn := { c_reg : reg_script; c_cfg : cfg_script; c_sync : sync_script }.
 
+(* plugin.start: after unblocking the connection it waits for the registration result, a close of the
+   connection, or time.After(getPluginRegistrationTimeout()).  A peer that calls RegisterPlugin [at]
+   milliseconds after the runtime started serving its connection, under a registration time-out [t_reg] and
+   a request time-out [t_req] (both in ms): the deadline of this phase is the REGISTRATION time-out; the
+   request time-out bounds Configure, Synchronize and the requests, not this wait. *)
+Definition reg_at (t_reg t_req at_ms : Z) (name idx : string) : reg_script :=
+  if at_ms <? t_reg then RegNow name idx else RegLate name idx.
+
+Definition timed_conn (t_reg t_req at_ms : Z) (name idx : string) (cfg : cfg_script) (sy : sync_script) : conn :=
+  {| c_reg := reg_at t_reg t_req at_ms name idx; c_cfg := cfg; c_sync := sy |}.
+
 Inductive outcome :=
 | ORegTimeout                           (* "plugin registration timed out" *)
 | OConnClosed                           (* "failed to register plugin, connection closed" *)
